@@ -8,6 +8,9 @@ CONSTANTS
   PartialAccept = FALSE
   ArriveWhole = FALSE
   CommitOnAccept = TRUE
+  MaxAbandon = 0
+  Vectored = FALSE
+  ReuseStalled = FALSE
 SPECIFICATION Spec
 INVARIANTS C05 Export
 CHECK_DEADLOCK FALSE
